@@ -19,7 +19,8 @@ var NominalDir = func() string {
 
 // Call-site files. A Match* call made through call site i is seen by the
 // library as coming from test file CallSiteFile(i).
-var CallSites = []string{"zz_world_a_test.go", "zz_world_b_test.go", "zz_world_c_test.go"}
+// (the third name contains ".snap" on purpose: a test file may be called like that)
+var CallSites = []string{"zz_world_a_test.go", "zz_world_b_test.go", "zz_world_c.snapshot_test.go"}
 
 // Pool of real top-level test functions (runner mode), by call-site file.
 var Pool = [][]string{
